@@ -371,8 +371,10 @@ def _index_structure(nrec, f0, f1, f2, indirect, tif, table, split, var=0):
             if lp.rle.tellLrForFrame(g) != (dpos[r], o):
                 return False
             g += 1
-    even = all(n == fpr[0] for n in fpr)
-    if nrec > 1 and even and lp.xAxisLastVal != _xmodel(var)(tot - 1):
+    # frames are evenly spaced in X here whatever the frames-per-record pattern: last X (and the spacing it is derived from) are exact
+    if nrec > 1 and lp.xAxisLastVal != _xmodel(var)(tot - 1):
+        return False
+    if nrec > 1 and lp.xAxisSpacing != _xmodel(var)(1) - _xmodel(var)(0):
         return False
     return True
 
